@@ -709,6 +709,30 @@ def r45(ctx: Ctx) -> RuleReport:
         return rep
     rep.add('penman._format:format: every metadata entry is written', where, 'ok' if not filt else 'violation',
             '' if not filt else f'entries are filtered by {[norm(c) for c in filt]}')
+    # the line may be made by a helper(key, value): its body stands for the expression, unless it rewrites the value first
+    if isinstance(line_expr, ast.Call) and isinstance(line_expr.func, ast.Name) and len(line_expr.args) == 2 and [norm(a) for a in line_expr.args] == [k, v]:
+        hs0 = [t.func for t in ctx.cg.resolve_call(line_expr, fi) if t.kind == 'func']
+        if len(hs0) == 1 and len(hs0[0].positional) == 2:
+            h0 = hs0[0]
+            hk, hv = h0.positional
+            rew = [n for n in walk_local(h0.node) if isinstance(n, ast.Assign) and any(isinstance(t, ast.Name) and t.id in (hk, hv) for t in n.targets)
+                   and any(isinstance(c, ast.Call) for c in ast.walk(n.value)) and any(isinstance(x, ast.Name) and x.id in (hk, hv) for x in ast.walk(n.value))]
+            if rew:
+                rep.violation('penman._format:format: a metadata key and value are written as they are', h0.loc(rew[0]),
+                              f'`{norm(rew[0])[:60]}` rewrites the {"value" if any(isinstance(t, ast.Name) and t.id == hv for t in rew[0].targets) else "key"} before the comment line is '
+                              f'built: what is read back is not what the graph held (interior runs of blanks, tabs and other white space collapse / characters are replaced), '
+                              f'so dumps followed by loads does not return equal metadata')
+                return rep
+            hrets = [n for n in walk_local(h0.node) if isinstance(n, ast.Return) and n.value is not None]
+            if len(hrets) == 1 and not [n for n in walk_local(h0.node) if isinstance(n, ast.Assign) and any(isinstance(t, ast.Name) and t.id in (hk, hv) for t in n.targets)]:
+                class _Ren(ast.NodeTransformer):
+                    def visit_Name(self, n):
+                        return ast.copy_location(ast.Name(id={hk: k, hv: v}.get(n.id, n.id), ctx=n.ctx), n)
+                import copy as _copy
+                line_expr = _Ren().visit(_copy.deepcopy(hrets[0].value))
+                for st in walk_local(h0.node):
+                    if isinstance(st, ast.Assign) and len(st.targets) == 1 and isinstance(st.targets[0], ast.Name):
+                        binds[st.targets[0].id] = _Ren().visit(_copy.deepcopy(st.value))
     for kt, vt in itertools.product([True, False], repeat=2):
         truthy = {k: kt, v: vt}
         got = sym_str(line_expr, truthy, binds)
@@ -1034,4 +1058,48 @@ def r71(ctx: Ctx) -> RuleReport:
                 rep.violation(key, fi.loc(bad[0][0]), f'{norm(bad[0][0])[:60]} passes {o}={norm(bad[0][1])[:30]} instead of the value it received')
             else:
                 rep.add(key, fi.loc(), 'ok' if passed or fi.qualname == '_dump_stream' else 'info', f'{len(passed)} call(s) pass it on')
+    return rep
+
+
+# ---------------------------------------------------------------------------------------------
+@rule('R132', 'the formatter writes an atomic target as it is given: no conversion changes the written form of a constant')
+def r132(ctx: Ctx) -> RuleReport:
+    from ..resolve import facts_ex
+    rep = RuleReport('R132', r132.title, floor=1)
+    fe = ctx.repo.func(F, '_format_edge')
+    tname = None
+    for n in walk_local(fe.node):
+        if isinstance(n, ast.Assign) and isinstance(n.targets[0], ast.Tuple) and len(n.targets[0].elts) == 2 and norm(n.value) == fe.positional[0] \
+                and isinstance(n.targets[0].elts[1], ast.Name):
+            tname = n.targets[0].elts[1].id
+    if tname is None:
+        rep.undecided(f'{fe.fq}: `role, target = edge`', fe.loc(), 'the edge is not unpacked into (role, target)')
+        return rep
+    CONV = {'int', 'float', 'round', 'abs', 'bool', 'repr', 'ascii', 'format', 'complex', 'Decimal', 'Fraction'}
+    METH = {'lower', 'upper', 'strip', 'lstrip', 'rstrip', 'casefold', 'title', 'capitalize', 'replace', 'translate', 'encode', 'normalize', 'zfill'}
+    n_sites = 0
+    for n in walk_local(fe.node):
+        vals = []
+        if isinstance(n, ast.Assign):
+            for t in n.targets:
+                if isinstance(t, ast.Name) and t.id == tname:
+                    vals.append(n.value)
+                elif isinstance(t, ast.Tuple) and isinstance(n.value, ast.Tuple) and len(t.elts) == len(n.value.elts):
+                    vals += [v for e, v in zip(t.elts, n.value.elts) if isinstance(e, ast.Name) and e.id == tname]
+        for v in vals:
+            n_sites += 1
+            key = f'{fe.fq}: `{norm(n)[:50]}`'
+            conv = [c for c in ast.walk(v) if isinstance(c, ast.Call) and ((isinstance(c.func, ast.Name) and c.func.id in CONV) or
+                                                                          (isinstance(c.func, ast.Attribute) and c.func.attr in METH))
+                    and any(isinstance(x, ast.Name) and x.id == tname for x in ast.walk(c))]
+            if conv:
+                fx = sorted(f if pol else f'not ({f})' for f, pol in facts_ex(ctx, fe, n))[:3]
+                rep.violation(key, fe.loc(n), f'under {fx} the target is replaced by `{norm(conv[0])[:40]}` before it is written: the constant in the text is no longer the constant '
+                              f'of the graph (2.0 is written 2, -0.0 is written 0), so decoding gives a different triple - constants are compared by their written form')
+            elif isinstance(v, ast.Constant) or (isinstance(v, ast.Call) and norm(v.func).endswith('_format_node')) or (isinstance(v, ast.Name) and v.id != tname):
+                rep.ok(key, fe.loc(n))
+            else:
+                rep.add(key, fe.loc(n), 'info', 'the target is re-bound in a form this rule does not judge')
+    if not n_sites:
+        rep.ok(f'{fe.fq}: the target is never re-bound', fe.loc())
     return rep
